@@ -49,8 +49,8 @@ vars == <<cyc, off, t, el, pos>>
 (* ---- TrafficLight.tla ---------------------------------------------------------------------------------------- *)
 \* @type: (Seq($elem), Int) => Int;
 SumTo(c, i) == LET \* @type: (Int, Int) => Int;
-                   Add(acc, j) == acc + c[j].d
-               IN ApaFoldSet(Add, 0, {j \in DOMAIN c : j <= i})                  \* d_1 + ... + d_i
+                   Add(acc, j) == acc + (IF j <= i /\ j <= Len(c) THEN c[j].d ELSE 0)
+               IN ApaFoldSeqLeft(Add, 0, <<1, 2, 3, 4>>)                           \* d_1 + ... + d_i  (i <= MaxElems = 4)
 \* @type: Seq($elem) => Int;
 Total(c)    == SumTo(c, Len(c))
 \* floored remainder x % m for m in 1..MaxTotal
@@ -93,7 +93,11 @@ LawPeriodic  == Periodic(cyc, off, t)
 LawInOrder   == InOrder(cyc, off)
 LawBeforeOffset == t < off => StateAt(cyc, off, t) = StateAt(cyc, off, t + Total(cyc))
 ActStepLaw == LET i == ElemAt(cyc, off, t) j == ElemAt(cyc, off, t') IN j = i \/ j = (i % Len(cyc)) + 1
-PropInv == LawPartition /\ LawCovers /\ LawPeriodic /\ LawInOrder /\ LawBeforeOffset
+\* the laws about TIME (unbounded here).  LawPartition / LawCovers / LawInOrder do not mention t: TLC checks them
+\* exhaustively over the same universe of cycles and offsets, there is no history to unbound (PropStatic is available
+\* as an extra obligation: --init=IndInit --inv=PropStatic --length=0)
+PropInv == LawPeriodic /\ LawBeforeOffset
+PropStatic == LawPartition /\ LawCovers /\ LawInOrder
 PropAct == ActStepLaw
 
 (* ---- the inductive invariant ---------------------------------------------------------------------------------- *)
@@ -106,4 +110,8 @@ IndInv ==
     /\ pos < cyc[el].d
 
 IndInit == cyc = Gen(MaxElems) /\ off = Gen(1) /\ t = Gen(1) /\ el = Gen(1) /\ pos = Gen(1) /\ IndInv
+
+LemmaPhase == Phase(cyc, off, t + Total(cyc)) = Phase(cyc, off, t)
+LemmaTotal == Total(cyc) \in 1..MaxTotal
+TypeInit == cyc = Gen(MaxElems) /\ off = Gen(1) /\ t = Gen(1) /\ el = Gen(1) /\ pos = Gen(1) /\ TypeOK
 =====================================================================================
